@@ -28,11 +28,11 @@ _ALL = '{"dict","idict","list","tuple","obj"}'
 TIERS = {
     'quick': dict(Mutant='"none"', MaxSpine='1', LevelClasses='{"dict","list","tuple","obj"}',
                   LeafOpts='{"none","str","edict"}', SideOpts='{"shared"}', Alpha='"small"', Alpha3='"p"',
-                  Profiles='{"plain","vals","miss","missval","missflag"}', Reuse='FALSE'),
+                  Profiles='{"plain","vals","miss","missval","missflag","edge","falsyval"}', Reuse='FALSE'),
     'thorough': dict(Mutant='"none"', MaxSpine='2', LevelClasses='{"dict","list","tuple","obj"}',
                      LeafOpts='{"none","edict","fset"}',
                      SideOpts='{"shared"}', Alpha='"small"', Alpha3='"p"',
-                     Profiles='{"plain","vals","miss","missval","missflag"}', Reuse='FALSE'),
+                     Profiles='{"plain","vals","miss","missval","missflag","edge","falsyval"}', Reuse='FALSE'),
 }
 # wildcard destinations: '*' among the parent segments, broadcast in order, partial on error
 STAR = {
@@ -70,7 +70,7 @@ LITVAL = {
 THOROUGH_WIDE = dict(Mutant='"none"', MaxSpine='1', LevelClasses=_ALL,
                      LeafOpts='{"str","elist"}',
                      SideOpts='{"absent","shared","empty"}', Alpha='"full"', Alpha3='"p"',
-                     Profiles='{"plain","vals","miss","missval","missflag"}', Reuse='FALSE')
+                     Profiles='{"plain","vals","miss","missval","missflag","edge","falsyval"}', Reuse='FALSE')
 MUTANT_UNIVERSE = dict(MaxSpine='1', LevelClasses='{"dict","list","obj"}', LeafOpts='{"none","edict"}',
                        SideOpts='{"absent","shared"}', Alpha='"small"', Alpha3='"p"',
                        Profiles='{"plain","miss","missval","missflag"}', Reuse='FALSE')
@@ -113,6 +113,12 @@ ASSUMPTIONS = [
     'assigned (no atomicity is claimed for wildcard paths); with missing=, segments absent before the first wildcard '
     'are created and the wildcard ranges over the last new container; sets are only enumerated when their order '
     'is determined (small ints)',
+    'realisation variants: every logging-mode case is replayed once more in one of (rotating) falsy containers / '
+    'objects with pass-through __getitem__ / __iter__ / __len__ overrides, hostile __eq__ (always True; raising), '
+    'reordered OrderedDicts (cases without attribute steps: an OrderedDict accepts attributes), namedtuples, classes '
+    'made with type() after others were collected, and the spec object evaluated twice with the first target and '
+    'everything made for it mutated in between; a slotted object (flag "slots") only on wildcard-free paths; numeric '
+    'keys that are equal across types (1 / 1.0 / True) are not modelled (abstract keys are compared structurally)',
     'TLC, the Json community module and the codec are trusted',
 ]
 
